@@ -378,6 +378,44 @@ Lemma f1_two_commits_fail_closed :
   C01_monitor (model_case f1_cfg f1_two_commits_ops) = 0.
 Proof. repeat split; vm_compute; reflexivity. Qed.
 
+(* ---- the K2 witness (C01-K2, corpus/C01/k2_shrunk_lost_page_reply_guard_holds.json) ------------------- *)
+
+(* leader 3 (term 1) stores X locally only (both followers unreachable: never acknowledged); leader 1
+   (term 2) is installed (quorum LEO 0: nothing to recover, no barrier) and commits Y: acknowledged at
+   index 1, held by {1,2} (node 3 answers Conflict).  Authority (1,3,3) is installed on node 2: all three
+   voters answer the frontier round (LEOs 1,1,1), the identity-page reply of node 1 is lost; the stable
+   voters {2,3} still have quorum LEO 1 and quorum watermark 0, so the guard of recoverQuorumPrefix holds;
+   at index 1 they differ (Y, X): selection 0, node 2 truncates Y and is writable at LEO 0 *)
+Definition k2_ops : list qop :=
+  [ OInstall 3 (1, 1, 1) false 2 no_faults;
+    OCommit 3 (1, 1, 1) (TUser 1) [f1_r1] false (Flt [] [1; 2] None []);
+    OInstall 1 (1, 2, 2) false 2 no_faults;
+    OCommit 1 (1, 2, 2) (TUser 2) [f1_r2] false no_faults;
+    OInstall 2 (1, 3, 3) false 2 (Flt [] [] None [1]) ].
+(* without the divergent longer log on node 3 the stable voters {2,3} have quorum LEO 0 <> 1: the guard
+   fails closed (ErrRecoveryProbeIncomplete) *)
+Definition k2_closed_ops : list qop :=
+  [ OInstall 3 (1, 1, 1) false 2 no_faults;
+    OInstall 1 (1, 2, 2) false 2 no_faults;
+    OCommit 1 (1, 2, 2) (TUser 2) [f1_r2] false (Flt [] [3] None []);
+    OInstall 2 (1, 3, 3) false 2 (Flt [] [] None [1]) ].
+
+Lemma k2_acked_entry_lost :
+  fst (run_model f1_cfg (cluster_init f1_cfg) k2_ops) =
+    [ RInstalled (1, 1, 1) 0 0; RErr EQuorumUnavailable; RInstalled (1, 2, 2) 0 0;
+      RReceipt (1, 2, 2) (TUser 2) 1 1 1; RInstalled (1, 3, 3) 0 0 ] /\
+  rp_leo (net_rep (cl_net (snd (run_model f1_cfg (cluster_init f1_cfg) k2_ops))) 2) = 0 /\
+  C01_monitor (model_case f1_cfg k2_ops) = 3.
+Proof. repeat split; vm_compute; reflexivity. Qed.
+
+Lemma k2_guard_false_fails_closed :
+  fst (run_model f1_cfg (cluster_init f1_cfg) k2_closed_ops) =
+    [ RInstalled (1, 1, 1) 0 0; RInstalled (1, 2, 2) 0 0;
+      RReceipt (1, 2, 2) (TUser 2) 1 1 1; RErr EProbeIncomplete ] /\
+  rp_leo (net_rep (cl_net (snd (run_model f1_cfg (cluster_init f1_cfg) k2_closed_ops))) 2) = 1 /\
+  C01_monitor (model_case f1_cfg k2_closed_ops) = 0.
+Proof. repeat split; vm_compute; reflexivity. Qed.
+
 Lemma round_followers_incl voters local rot : incl (round_followers voters local rot) voters.
 Proof.
   unfold round_followers. intros x Hx.
@@ -431,4 +469,23 @@ Proof. vm_compute. reflexivity. Qed.
 
 (* with outages: only 0 or the known-finding code 2, never 1 *)
 Lemma c01_bounded_with_outages : c01_codes_in [0; 2] (c01_alphabet true) 4 = true.
+Proof. vm_compute. reflexivity. Qed.
+
+(* lost identity-page replies: after leader 3's install, a local-only write X by leader 3, installs of
+   (1,2,2) on node 1 and of (1,3,3) on node 2 (with and without node 1's page reply lost), commits by
+   nodes 1 and 2, node 1 going down / coming back *)
+Definition k2_alphabet : list qop :=
+  [ OCommit 3 (1, 1, 1) (TUser 1) [f1_r1] false (Flt [] [1; 2] None []);
+    OInstall 1 (1, 2, 2) false 2 no_faults;
+    OCommit 1 (1, 2, 2) (TUser 2) [f1_r2] false no_faults;
+    OInstall 2 (1, 3, 3) false 2 (Flt [] [] None [1]);
+    OInstall 2 (1, 3, 3) false 2 no_faults;
+    OCommit 2 (1, 3, 3) (TUser 3) [f1_r3] false no_faults;
+    ODown 1; OUp 1 ].
+Definition c01_codes_in_from (first : qop) (allowed : list N) (alphabet : list qop) (len : nat) : bool :=
+  forallb (fun s => existsb (N.eqb (C01_monitor (model_case f1_cfg (first :: s)))) allowed) (schedules01 alphabet len).
+
+(* 37449 schedules: only 0 and the known-finding codes 2 and 3, never 1 *)
+Lemma c01_bounded_lost_page_replies :
+  c01_codes_in_from (OInstall 3 (1, 1, 1) false 2 no_faults) [0; 2; 3] k2_alphabet 5 = true.
 Proof. vm_compute. reflexivity. Qed.
